@@ -516,6 +516,11 @@ CORPUS = [
     [("while", None, [("await", C0), ("while", None, [E(1), ("await", C1), ("if", C0, [("break",)], [])]), ("if", C1, [("break",)], [("continue",)])]), E(5)],
     [E(1), ("while", C0, [("await", C1), ("while", C1, [("await", C0), ("if", C0, [("continue",)], []), E(2)]), ("if", ("var", 2), [("continue",)], [("break",)])]), E(4)],
     [("call", [("while", None, [("await", C0), ("while", C1, [E(1), ("await", C0), ("if", C0, [("return",)], [])]), ("if", C1, [("break",)], [])]), E(2)]), E(3), ("await", C0)],
+    # a loop body with an await-free path to its end AND a `continue` after an await on another path: the body inlined at the
+    # continue site must still return to the loop head when it takes the await-free path
+    [("while", None, [("if", C0, [("await", C1), ("if", NC0, [("continue",)], []), E(1)], [E(2)])])],
+    [E(3), ("while", None, [("if", C0, [("await", C1), ("if", NC0, [("continue",)], [("break",)]), E(1)], [E(2)])]), E(4), ("await", C1)],
+    [("while", C1, [("if", C0, [E(1), ("await", C1), ("if", NC0, [("continue",)], []), E(2)], [])]), E(5), ("await", C0)],
     # a leading loop whose body starts with an await
     [("while", None, [("await", C0), E(1)]), E(2)],
     [("while", None, [("await", C0), E(1), ("if", C1, [("break",)], [])]), E(2), ("await", C1)],
